@@ -44,6 +44,21 @@ func (f *fctx) instr(ins ssa.Instruction) {
 			}
 		}
 		t := f.val(ins.X)
+		if t.Sort != nil && t.Sort.Kind == KStruct {
+			// conversion between two named struct types with the same underlying struct (type Vector3 r3.Vec):
+			// rebuild the value field by field in the target datatype
+			if ts := f.vc.sortOf(ins.Type()); ts != nil && ts.Kind == KStruct && ts.Name != t.Sort.Name && len(ts.Fields) == len(t.Sort.Fields) {
+				if len(ts.Fields) == 0 {
+					t = Term{S: "mk_" + ts.Name, Sort: ts}
+				} else {
+					parts := make([]string, len(ts.Fields))
+					for i, fl := range t.Sort.Fields {
+						parts[i] = fmt.Sprintf("(%s.%s %s)", t.Sort.Name, fl.Name, t.S)
+					}
+					t = Term{S: "(mk_" + ts.Name + " " + strings.Join(parts, " ") + ")", Sort: ts}
+				}
+			}
+		}
 		t.Ty = ins.Type()
 		f.vals[ins] = t
 	case *ssa.Call:
